@@ -57,7 +57,7 @@ GOOD = {
 # only speaks about the natural JSON kind plus structurally wrong values.
 BAD = {
     "Int": [2147483648, -2147483649, {"a": 1}, [1, 2]],
-    "Float": [{"a": 1}],
+    "Float": [{"a": 1}, 10 ** 400, -(10 ** 400), float("inf"), float("nan")],
     "String": [{"a": 1}, ["a", "b"]],
     "Boolean": [],
     "ID": [{"a": 1}],
